@@ -91,6 +91,6 @@ let run (args : String.t list) =
             | Some (x, y) -> rs (fun b -> "ok:" ^ hex_of_bytes b) (notif_build x y data)
             | None -> "PANIC" in
           Printf.printf "NB %s %s\n" id r
-        | ["KB"; id] -> Printf.printf "KB %s ok:%s\n" id (hex_of_bytes keepalive_build)
+        | ["KB"; id] | ["KB"; id; _] -> Printf.printf "KB %s ok:%s\n" id (hex_of_bytes keepalive_build)
         | _ -> ()) (read_lines file)
   | _ -> prerr_endline "usage: model c03 <cases>"; exit 2
